@@ -53,7 +53,7 @@ KERNELS = {
     "C29": ["k_math_bounding", "k_math_percentage", "k_math_clamp", "k_css_clamp", "k_find_extreme"],
     "C28": ["k_index_of", "k_set_nth", "k_append_join", "k_list_separator", "k_list_index", "k_nth", "k_get_list"],
     "C31": ["k_deg_mod"],
-    "C33": ["k_rgba_hex_text"],
+    "C33": ["k_rgba_hex_text", "k_rgba_name"],
     "C32": ["k_deg_mod", "k_lighten_darken", "k_fade", "k_complement_grayscale"],
 }
 # for C01 only the panic obligations of the kernels count
@@ -270,6 +270,31 @@ def lift_math1(model, fn):
         if not m or abs(Fraction(m.group(1)) - want) > max(abs(want), 1) * Fraction(1, 10**8):
             bad = True
     return {"scss": src, "want": "%s%s" % (float(want), "%" if fn == "percentage" else "px"), "got": vals, "reproduced": bad}
+
+
+
+def lift_namedcolor(model):
+    """the model's bytes printed compressed; when the text is a name, the name is read back channel by channel"""
+    vals = {}
+    for k, v in (model or {}).items():
+        for n in ("red", "green", "blue"):
+            if n in k:
+                vals[n] = smt.bv_from_model(v, False, 8)
+    if len(vals) != 3:
+        return None
+    r, g, b = vals["red"], vals["green"], vals["blue"]
+    bad, got = [], []
+    for prof in ("dev", "release"):
+        o = native.run_scss("a{b: rgb(%d, %d, %d)}" % (r, g, b), prof, True)
+        m = re.search(r"b:\s*([^;}]*)", o["message"]) if o["outcome"] == "ok" else None
+        txt = m.group(1).strip() if m else "<%s>" % o["outcome"]
+        got.append(txt)
+        if re.fullmatch(r"[A-Za-z]+", txt):
+            back, _ = _css_value("red(%s) green(%s) blue(%s)" % (txt, txt, txt))
+            got.append(back)
+            if any(v != "%d %d %d" % (r, g, b) for v in back):
+                bad.append({"name": txt, "read back": back})
+    return {"scss": "a{b: rgb(%d, %d, %d)}" % (r, g, b), "want": "a name that reads back as (%d, %d, %d)" % (r, g, b), "got": got, "disagreements": bad, "reproduced": bool(bad)}
 
 
 def lift_hexcolor(model):
@@ -692,6 +717,24 @@ def _c34_probes():
 
 
 STRUCTURAL_PROBES["k_expose_tables"] = _c34_probes()
+
+
+def _c33_name_probes():
+    """named colours whose CSS values are beyond doubt; each is read back channel by channel and, where the compressed
+    printer prefers the name (name no longer than the hex form, first name of its value in the table), printed from bytes
+    (aqua/cyan, gray/grey, fuchsia/magenta are left out of the printing direction: which synonym is printed is not part of the property)"""
+    cols = {"red": (255, 0, 0), "tan": (210, 180, 140), "navy": (0, 0, 128), "teal": (0, 128, 128), "lime": (0, 255, 0),
+            "pink": (255, 192, 203), "plum": (221, 160, 221), "gold": (255, 215, 0), "peru": (205, 133, 63), "snow": (255, 250, 250),
+            "azure": (240, 255, 255), "beige": (245, 245, 220), "coral": (255, 127, 80), "olive": (128, 128, 0), "ivory": (255, 255, 240), "khaki": (240, 230, 140),
+            "linen": (250, 240, 230), "wheat": (245, 222, 179)}
+    out = []
+    for n, (r, g, b) in sorted(cols.items()):
+        out += [("red(%s)" % n, str(r)), ("green(%s)" % n, str(g)), ("blue(%s)" % n, str(b)), ("[compressed]a{b: rgb(%d, %d, %d)}" % (r, g, b), "b:%s}" % n)]
+    out += [("green(aqua)", "255"), ("red(gray)", "128"), ("red(cyan)", "0"), ("blue(cyan)", "255"), ("green(grey)", "128"), ("red(Tan)", "210"), ("%s" % "tan", "tan"), ("alpha(transparent)", "0")]
+    return out
+
+
+STRUCTURAL_PROBES["k_rgba_name"] = _c33_name_probes()
 STRUCTURAL_PROBES["k_meta_call"] = [p for p in _c34_probes() if "meta.call" in p[0][2]] + [
     (("rel", "same-value", "meta.call(meta.get-function(\"f\"), 2, $b: 3)", "f(2, $b: 3)"), None),
     (("rel", "same-value", "meta.call(meta.get-function(\"f\"), (2 3)...)", "f(2, 3)"), None),
@@ -916,6 +959,8 @@ def lift(ob):
             return lift_math1(model, kind.split(":", 1)[1])
         if kind == "hexcolor":
             return lift_hexcolor(model)
+        if kind == "namedcolor":
+            return lift_namedcolor(model)
         if kind == "index-map":
             return lift_index_map(model)
     except Exception as e:  # a broken lifter must not turn into a verdict
